@@ -20,8 +20,8 @@ VERIF = os.path.dirname(os.path.dirname(os.path.abspath(__file__)))
 MUTANTS = {}
 
 
-def M(name, prop, path, old, new, quota=None):
-    MUTANTS[name] = dict(prop=prop, path=path, old=old, new=new, quota=quota)
+def M(name, prop, path, old, new, quota=None, count=1):
+    MUTANTS[name] = dict(prop=prop, path=path, old=old, new=new, quota=quota, count=count)
 
 
 # ---- C04 ------------------------------------------------------------------------------------
@@ -38,6 +38,18 @@ M('c04_hash_order_markers', 'C04', 'cell_type_mapper/type_assignment/marker_cach
   "            if len(these_reference) > 0:\n                these_reference = np.array(these_reference)\n                these_query = np.array(these_query)\n                sorted_dex = np.argsort(these_reference)\n                these_reference = these_reference[sorted_dex]\n                these_query = these_query[sorted_dex]\n",
   "            if len(these_reference) > 0:\n                these_reference = np.array(these_reference)\n                these_query = np.array(these_query)\n")
 
+# ---- C14 ------------------------------------------------------------------------------------
+M('c14_negative_code_ok', 'C14', 'cell_type_mapper/utils/multiprocessing_utils.py',
+  ".exitcode != 0:", ".exitcode > 0:", count=2)
+M('c14_mapping_swallow', 'C14', 'cell_type_mapper/type_assignment/election.py',
+  "    while len(process_list) > 0:\n        process_list = winnow_process_list(process_list)\n\n    if buffer_dir is not None:",
+  "    while len(process_list) > 0:\n        try:\n            process_list = winnow_process_list(process_list)\n        except RuntimeError:\n            process_list = [p for p in process_list if p.exitcode is None]\n\n    if buffer_dir is not None:")
+M('c14_refmarkers_in_place', 'C14', 'cell_type_mapper/diff_exp/markers.py',
+  "    tmp_path = create_sparse_by_pair_marker_file(", "    shutil.copy(src=precomputed_stats_path, dst=output_path) if False else None\n    tmp_path = create_sparse_by_pair_marker_file(")
+M('c14_stats_tree_first', 'C14', 'cell_type_mapper/diff_exp/precompute.py',
+  "        out_file.create_dataset('n_cells', shape=(n_clusters,), dtype=int)",
+  "        out_file.create_dataset('n_cells', shape=(n_clusters,), dtype=int)\n        out_file.create_dataset('taxonomy_tree', data=b'{}')")
+
 
 def run_mutant(name, tier='quick'):
     m = MUTANTS[name]
@@ -49,7 +61,7 @@ def run_mutant(name, tier='quick'):
     fp = os.path.join(src, m['path'])
     with open(fp) as f:
         text = f.read()
-    if text.count(m['old']) != 1:
+    if text.count(m['old']) != m.get('count', 1):
         shutil.rmtree(scratch, ignore_errors=True)
         return {'name': name, 'status': 'PATTERN-NOT-FOUND(%d)' % text.count(m['old'])}
     with open(fp, 'w') as f:
